@@ -68,6 +68,10 @@ class NormalizingExperimenter(experimenter.Experimenter):
     for parameters in sampled_params:
       trial = vz.Trial(parameters=parameters)
       exptr.evaluate([trial])
+      if trial.infeasible:
+        # Infeasible samples carry no (or NaN) objective values, which would
+        # turn the normalization constants and hence every output into NaN.
+        continue
       measurement = trial.final_measurement
       for name, metric in (measurement.metrics if measurement else {}).items():
         metrics[name].append(metric.value)
@@ -84,10 +88,14 @@ class NormalizingExperimenter(experimenter.Experimenter):
   def evaluate(self, suggestions: Sequence[vz.Trial]):
     self._exptr.evaluate(suggestions)
     for suggestion in suggestions:
-      if suggestion.final_measurement is None:
+      if suggestion.final_measurement is None or suggestion.infeasible:
         continue
       normalized_metrics: Dict[str, vz.Metric] = {}
       for name, metric in suggestion.final_measurement.metrics.items():
+        if name not in self._norm_means:
+          # No feasible normalization sample reported this metric.
+          normalized_metrics[name] = metric
+          continue
         norm_val = metric.value - self._norm_means[name]
         norm_val /= self._norm_stds[name]
         normalized_metrics[name] = vz.Metric(norm_val)
@@ -138,4 +146,11 @@ class HyperCubeExperimenter(experimenter.Experimenter):
     self._exptr.evaluate(orig_suggestions)
 
     for suggestion, orig_suggestion in zip(suggestions, orig_suggestions):
-      suggestion.final_measurement = orig_suggestion.final_measurement
+      if orig_suggestion.final_measurement is None:
+        continue
+      # complete() also carries over infeasibility, which assigning the final
+      # measurement alone would silently drop.
+      suggestion.complete(
+          orig_suggestion.final_measurement,
+          infeasibility_reason=orig_suggestion.infeasibility_reason,
+      )
